@@ -21,7 +21,7 @@ package vanguard
 //@ define LIB = $map|, $elems|, $connerr|
 //@ define LIB0 = $connerr|
 //@ define RWB = #RWEND, $buf|len
-//@ define RWEND = $vanguard.responseWriter.headersFlushed, $vanguard.responseWriter.buf, $vanguard.responseWriter.err, $vanguard.responseWriter.endWritten, $vanguard.responseWriter.respMeta, $vanguard.responseMeta.end, $vanguard.responseEnd., #LIB
+//@ define RWEND = $vanguard.responseWriter.msgForwarded, $vanguard.responseWriter.headersFlushed, $vanguard.responseWriter.buf, $vanguard.responseWriter.err, $vanguard.responseWriter.endWritten, $vanguard.responseWriter.respMeta, $vanguard.responseMeta.end, $vanguard.responseEnd., #LIB
 
 // ------------------------------------------------------------------------------------------------
 // C12 / C04: tables and timeouts (loop-free, complete over the whole input domain)
@@ -184,13 +184,22 @@ package vanguard
 //@ |  && w.w == old(w.w) && w.headersWritten == old(w.headersWritten) && w.code == old(w.code)
 //@ |  && (old(w.endWritten) ==> w.endWritten && w.err == old(w.err) && w.respMeta == old(w.respMeta) && w.buf == old(w.buf))
 //@ |  && (old(w.headersFlushed) ==> w.headersFlushed) && (old(w.respMeta) != nil ==> w.respMeta == old(w.respMeta))
-//@ |  && (w.buf == old(w.buf) || w.buf == nil)
+//@ |  && (w.buf == old(w.buf) || w.buf == nil) && (old(w.msgForwarded) ==> w.msgForwarded)
 
 //@ func (*responseWriter).flushMessage
 //@   requires validRW(w)
 //@   track flushes = (net/http.Flusher).Flush
 //@   ensures[C16] old(w.buf) == nil ==> flushes == 1
 //@   ensures[C16,C03] old(w.buf) != nil ==> flushes == 0
+//@   ensures[C01,C09] w.msgForwarded
+//@   modifies w.msgForwarded
+
+// C01/C09: a client protocol without envelopes cannot carry a second response message (it would be
+// concatenated onto the first); for a method with a single response it is refused.
+//@ pred oneResponse(w) = w.op.clientEnveloper == nil && w.op.methodConf.streamType & 2 == 0
+//@ func (*responseWriter).extraMessage
+//@   requires validRW(w)
+//@   ensures[C01,C09] r0 == (w.msgForwarded && oneResponse(w))
 //@   modifies
 
 //@ func (*responseWriter).writeEnd
@@ -342,6 +351,7 @@ package vanguard
 //@   modifies w.initialized, w.writingEnvelope, w.remainingBytes, w.current, w.mustReleaseCurrent, w.err, $vanguard.limitWriter., owned(unbox(w.current, *limitWriter).buf), owned(w.rw.buf), #RWB
 
 //@ func (*envelopingWriter).handleEnvelopeWritten
+//@   ensures[C01,C09] err == nil && !w.currentIsTrailer && oneResponse(w.rw) ==> !w.rw.msgForwarded
 //@   ensures[C03] err == nil ==> w.rw.endWritten == old(w.rw.endWritten)
 //@   dispatch (io.Writer).Write: *limitWriter
 //@   requires validEW(w) && relInv(w)
@@ -505,6 +515,7 @@ package vanguard
 //@   opt inline
 
 //@ func (*transformingWriter).flushMessage
+//@   atcall[C01,C09] (*bytes.Buffer).WriteTo: oneResponse(w.rw) ==> !w.rw.msgForwarded
 //@   track unlimited ?= (*compressionPool).decompress
 //@   ensures[C10] unlimited == 0
 //@   atcall[C10] (*compressionPool).decompressLimit: arg(3) == limitOf(w.rw.op)
